@@ -32,8 +32,10 @@ class LinearScaleMode(ScaleMode):
         Returns:
             A scale mode that scales data linearly.
         """
-        self._gain = arg_to_float("gain", gain)
-        self._offset = arg_to_float("offset", offset)
+        # Store Python floats: a NumPy float64 scalar (a float subclass) is not a weak scalar under
+        # NEP 50 and would promote float32/complex64 data to 64 bits when scaling.
+        self._gain = float(arg_to_float("gain", gain))
+        self._offset = float(arg_to_float("offset", offset))
 
     @property
     def gain(self) -> float:
